@@ -1811,7 +1811,9 @@ class _GroupElem(ABC):
         dim = self.__dim
         connect = self._global_to_local_nodes[self.connect]
 
-        tol = 1e-12
+        # slack on the closed element, in the unit of length of the coordinates
+        # (the round-off of the tests below is relative to their magnitude)
+        tol = 1e-12 * np.abs(self.coord[connect[elem]]).max()
 
         if dim == 0:
             coord = self.coord[connect[elem, 0]]
@@ -2202,7 +2204,7 @@ class _GroupElem(ABC):
         else:
             xn, yn, zn = coordinates_n.T
             xe, ye, ze = coordElem.T
-            tol = 1e-12
+            tol = 1e-12 * np.abs(coordElem).max()
 
             idx = np.where(
                 (xn >= np.min(xe) - tol)
